@@ -145,6 +145,8 @@ func (o op) String() string {
 		return fmt.Sprintf("ShowCursor(%d,%d)", o.x, o.y)
 	case "cstyle":
 		return fmt.Sprintf("SetCursorStyle(%d,%v)", o.cs, o.col)
+	case "setmut":
+		return fmt.Sprintf("SetContent(%d,%d,%q,%q,style%d) and the caller overwrites its slice afterwards", o.x, o.y, o.r, string(o.comb), o.st)
 	case "lock":
 		return fmt.Sprintf("LockRegion(%d,%d,%d,%d,%v)", o.x, o.y, o.w, o.h, o.lock)
 	case "winsize":
@@ -209,7 +211,7 @@ func scenarios() []scenario {
 		for x := 0; x < 4; x++ {
 			ops = append(ops, op{kind: "set", x: x, r: 'a'}, op{kind: "set", x: x, r: '世'})
 		}
-		ops = append(ops, op{kind: "set", x: 1, r: '界', st: 1}, op{kind: "set", x: 2, r: 'e', comb: []rune{0x0301}}, op{kind: "set", x: 2, r: 'e', comb: []rune{0x0300}}, op{kind: "set", x: 0, r: 'e', comb: []rune{0x0301, 0x0302}},
+		ops = append(ops, op{kind: "set", x: 1, r: '界', st: 1}, op{kind: "set", x: 2, r: 'e', comb: []rune{0x0301}}, op{kind: "set", x: 2, r: 'e', comb: []rune{0x0300}}, op{kind: "setmut", x: 2, r: 'e', comb: []rune{0x0301}}, op{kind: "set", x: 0, r: 'e', comb: []rune{0x0301, 0x0302}},
 			op{kind: "fill", r: 'b'}, op{kind: "fill", r: '世'}, op{kind: "clear"}, show)
 		out = append(out, scenario{"W-wide-4x1", 4, 1, ops, 4, 6, nil})
 		// the same alphabet from a painted screen (every cell clean, holding 'b')
@@ -455,6 +457,14 @@ func (d *dsys) Apply(i int) (sig, desc string) {
 		}
 		d.sh.CursorStyle = o.cs
 		d.sh.CursorColor = o.col
+	case "setmut":
+		// the application reuses its slice: what the cell shows is what was in it at the call
+		buf := append([]rune(nil), o.comb...)
+		d.s.SetContent(o.x, o.y, o.r, buf, styles[o.st].Style())
+		d.sh.SetContent(o.x, o.y, o.r, o.comb, styles[o.st])
+		for i := range buf {
+			buf[i] = 0x0308
+		}
 	case "lock":
 		d.s.LockRegion(o.x, o.y, o.w, o.h, o.lock)
 		d.sh.LockRegion(o.x, o.y, o.w, o.h, o.lock)
